@@ -147,6 +147,11 @@ def run(env, rep):
     # ------------------------------------------------------------------ R4: a chunk carries min(missing, chunk size) bytes
     if wants(rep, "C16.R4"):
         chunk.payload_take(m, rep, "C16.R4")
+    # ------------------------------------------------------------------ R5: "never failing" - what the reader refuses does not depend on other chunk streams
+    if wants(rep, "C16.R5"):
+        from ..framework import PrefixReport as _PR
+        from . import C06 as _C06
+        _C06.run(env, _PR(rep, "C06.R4", "C16.R5", only=("C06.R4",)))
     # ------------------------------------------------------------------ R3: distinct chunk streams get distinct keys
     from ..framework import PrefixReport
     from . import C06
